@@ -534,6 +534,9 @@ func (w *Walker) walkOne(fn *ssa.Function, args []*Term) Path {
 	p.Events = w.events
 	p.Decisions = w.decisions
 	p.Cells = w.cells
+	for _, c := range w.symCells {
+		p.SymCells = append(p.SymCells, c)
+	}
 	return p
 }
 
